@@ -99,6 +99,8 @@ void* gb_alloc(gbuf_t* g, size_t n, size_t align, size_t mis, size_t guard);
 // returns 0 when both guard bands are intact, else offset info through *where (negative = before)
 int gb_check(gbuf_t* g, long* where);
 void gb_free(gbuf_t* g);
+// own-mapping placements only: make the buffer's pages read-only (on) / writable again (off); returns 1 when applied
+int gb_readonly(gbuf_t* g, int on);
 // one-shot: the next n (<= 8) gb_alloc calls of this thread place their buffer at these offsets inside a page (rounded down to the
 // requested alignment); used to sweep the distance between two operands modulo the page size
 void gb_force_page_offsets(const long* offs, int n);
